@@ -74,7 +74,8 @@ def draw_gmm(n, loc, scale, pvals, random_state=None) -> Tuple[np.ndarray, np.nd
                 raise ValueError(f"The {k}-th variance is negative.")
         for k in range(len(loc)):
             # scale holds variances (1d covariances) whereas the normal sampler expects standard deviations
-            X += [generator.normal(loc[k], np.sqrt(scale[k]), size=(n,))]
+            # (a 1d covariance may be given as a scalar, a (1,) vector or the documented (1, 1) matrix)
+            X += [generator.normal(loc[k], np.sqrt(scale[k]).reshape(-1), size=(n,))]
     else:
         for k in range(K):
             eigenvalues = np.linalg.eigvals(scale[k])
